@@ -188,3 +188,73 @@ func H_C03_core() {
 	}
 	vrtReach("returned")
 }
+
+// escSegment builds one piece of a quoted-identifier body: an ordinary ASCII
+// character, a two-character escape, or \u followed by 0..4 symbolic characters
+// (so truncated and malformed \uXXXX forms, surrogate ranges and pairs occur).
+func escSegment(i int) string {
+	switch vrtChoose("seg", 4) {
+	case 0:
+		return vrtStrN("c", 1, smASCII)
+	case 1:
+		return "\\" + vrtStrN("e", 1, smASCII)
+	case 2:
+		return "\\u" + vrtStrN("h", 4, smASCII)
+	default:
+		return "\\u" + vrtStr("t", 3, smASCII)
+	}
+}
+
+// H_C03_escapes: quoted identifiers made of up to three escape segments never
+// panic the decoder (also used for C04: accept exactly the JSON string bodies).
+func H_C03_escapes() {
+	maxSeg := 2
+	if vrtTier() == 1 {
+		maxSeg = 3
+	}
+	n := 1 + vrtChoose("segments", maxSeg)
+	body := ""
+	for i := 0; i < n; i++ {
+		body += escSegment(i)
+	}
+	vrtAssume(lexedBody(body, '"'))
+	v, err := parser.VerifParseQuotedIdentifier("\"" + body + "\"")
+	want, ok := refDecodeQuoted(body)
+	if refSurrogateOpen(body) {
+		return
+	}
+	if ok {
+		vrtAssert(err == nil, "a valid JSON string body is rejected as quoted identifier")
+		if err == nil {
+			vrtAssert(v == want, "quoted identifier decodes to a different string")
+		}
+	} else {
+		vrtAssert(err != nil, "a malformed quoted identifier is accepted")
+	}
+	vrtReach("decoded")
+}
+
+// H_C03_slices: slices with all-int64 bounds on arrays and strings never panic.
+func H_C03_slices() {
+	var doc any
+	n := vrtChoose("n", 4)
+	switch vrtChoose("kind", 3) {
+	case 0:
+		a := make([]any, n)
+		for i := range a {
+			a[i] = int64(i)
+		}
+		doc = a
+	case 1:
+		doc = vrtStrN("s", n, smUTF8|(5<<2))
+	default:
+		doc = vrtDoc("d", 1, uAll, uScalar)
+	}
+	k := vrtChoose("pattern", len(c12Patterns))
+	expr, _, _, _, _, _ := c12Template(k)
+	got, err := Search(expr, doc)
+	if err != nil {
+		vrtAssert(touchError(err) >= 0 && got == nil, "error contract")
+	}
+	vrtReach("returned")
+}
